@@ -15,3 +15,7 @@ func engineLive() int64 { return 0 }
 func engineQuiesce() {}
 
 func resetEngineHooks() {}
+
+func setEngineHook(h func(op string, n int) error) {}
+
+func setEngineQuiet(q bool) {}
